@@ -197,6 +197,7 @@ fn to_string_moved(
                 },
                 false,
                 false,
+                language,
             )
         }
         RangeKind {
@@ -291,6 +292,7 @@ fn to_string_moved(
                 },
                 full_row,
                 full_column,
+                language,
             );
             let s2 = stringify_reference(
                 Some(&context),
@@ -305,6 +307,7 @@ fn to_string_moved(
                 },
                 full_row,
                 full_column,
+                language,
             );
             format!("{s1}:{s2}")
         }
@@ -337,6 +340,7 @@ fn to_string_moved(
                 },
                 false,
                 false,
+                language,
             )
         }
         WrongRangeKind {
@@ -375,6 +379,7 @@ fn to_string_moved(
                 },
                 full_row,
                 full_column,
+                language,
             );
             let s2 = stringify_reference(
                 Some(&context),
@@ -389,6 +394,7 @@ fn to_string_moved(
                 },
                 full_row,
                 full_column,
+                language,
             );
             format!("{s1}:{s2}")
         }
